@@ -24,7 +24,10 @@ from pptx.enum.shapes import MSO_CONNECTOR, MSO_SHAPE
 from pptx.enum.text import MSO_ANCHOR, MSO_AUTO_SIZE, MSO_UNDERLINE, PP_ALIGN
 from pptx.util import Emu, Pt
 
-BAD = {"outside-bound", "wrong-type", "wrong-enum", "no-xml-member"}
+# "None-not-documented": None assigned to a number / length / enumeration / string / colour property whose docstring gives no
+# meaning to None - outside the documented domain like any other wrong type (boolean properties take any value by truthiness:
+# there None stays "undoc-None", accepted or refused alike)
+BAD = {"outside-bound", "wrong-type", "wrong-enum", "no-xml-member", "None-not-documented"}
 TRIVIAL = {"member", "interior", "random"}
 # an empty element of these (no attribute, no child) says the same as its absence (schema: everything in it is optional, the
 # attribute defaults are the getters' defaults); a rejected assignment that leaves only such an element behind changed nothing
@@ -58,7 +61,7 @@ def ints(lo, hi, documented, interior=(), none=False):
         v = [(lo, "lo-bound"), (hi, "hi-bound"), (lo + 1, "inside-bound"), (hi - 1, "inside-bound"), (lo - 1, out), (hi + 1, out)]
         v += [(x, "interior") for x in interior]
         v += [("abc", "wrong-type"), (2.5, "undoc-float"), ([1], "wrong-type")]
-        v.append((None, "None" if none else "undoc-None"))
+        v.append((None, "None" if none else "None-not-documented"))
         return _fill(v, rnd, n, lambda r: r.randint(lo, hi))
     return gen
 
@@ -84,7 +87,7 @@ def centipoint_emu(lo_emu, hi_emu, none=True):
              (lo_emu - 127, "undoc-outside"), (hi_emu + 127, "undoc-outside"), (Pt(18), "interior"), (Pt(10.5), "interior")]
         for k in (lo_emu // 127 + 3, 1800, 2401):
             v += [(k * 127 - 1, "threshold-neighbour"), (k * 127, "threshold-neighbour"), (k * 127 + 1, "threshold-neighbour"), (k * 127 + 63, "threshold-neighbour"), (k * 127 + 64, "threshold-neighbour")]
-        v += [("abc", "wrong-type"), ([1], "wrong-type"), (None, "None" if none else "undoc-None")]
+        v += [("abc", "wrong-type"), ([1], "wrong-type"), (None, "None" if none else "None-not-documented")]
         return _fill(v, rnd, n, lambda r: Emu(r.randint(lo_emu, min(hi_emu, 12700 * 400))))
     return gen
 
@@ -113,7 +116,7 @@ def fracs(lo, hi, documented, q=1e-5, none=False, span=None):
             for x in (t, up(t), dn(t)):
                 if lo <= x <= hi:
                     v.append((x, "threshold-neighbour"))
-        v += [("abc", "wrong-type"), ([1], "wrong-type"), (INF, "undoc-nonfinite"), (NAN, "undoc-nonfinite"), (None, "None" if none else "undoc-None")]
+        v += [("abc", "wrong-type"), ([1], "wrong-type"), (INF, "undoc-nonfinite"), (NAN, "undoc-nonfinite"), (None, "None" if none else "None-not-documented")]
         return _fill(v, rnd, n, lambda r: r.choice([r.uniform(*span), round(r.uniform(*span), 5) + r.choice([4.9e-6, 5e-6, 5.1e-6, -5e-6])]))
     return gen
 
@@ -125,7 +128,7 @@ def angles(none=False):
         for k in (0, 2545199, 21599999):
             t = (k + 0.5) / 60000.0
             v += [(t, "threshold-neighbour"), (up(t), "threshold-neighbour"), (dn(t), "threshold-neighbour")]
-        v += [("abc", "wrong-type"), ([1], "wrong-type"), (INF, "undoc-nonfinite"), (NAN, "undoc-nonfinite"), (None, "None" if none else "undoc-None")]
+        v += [("abc", "wrong-type"), ([1], "wrong-type"), (INF, "undoc-nonfinite"), (NAN, "undoc-nonfinite"), (None, "None" if none else "None-not-documented")]
         return _fill(v, rnd, n, lambda r: r.choice([r.uniform(-720, 720), round(r.uniform(0, 360), 4) + r.choice([-1, 1]) * 8.3333e-6]))
     return gen
 
@@ -137,7 +140,7 @@ def doubles(positive=False, none=True):
         v += [(5e-324, "lo-bound"), (1.7976931348623157e308, "hi-bound"), (up(1.0), "threshold-neighbour"), (dn(1.0), "threshold-neighbour")]
         neg = "undoc-nonpositive" if positive else "interior"
         v += [(0, neg), (-0.0, neg), (-2.5, neg), (-1e300, neg)]
-        v += [("abc", "wrong-type"), ([1], "wrong-type"), (INF, "undoc-nonfinite"), (NAN, "undoc-nonfinite"), (None, "None" if none else "undoc-None")]
+        v += [("abc", "wrong-type"), ([1], "wrong-type"), (INF, "undoc-nonfinite"), (NAN, "undoc-nonfinite"), (None, "None" if none else "None-not-documented")]
         return _fill(v, rnd, n, lambda r: r.choice([r.uniform(0.001, 1e4), r.random() * 10 ** r.randint(-8, 12), abs(r.gauss(0, 1)) + 1e-3]))
     return gen
 
@@ -171,7 +174,7 @@ def enums(E, none=False, ok_without_xml=(), extra=()):
             seen.add(getattr(m, "xml_value", None))
             v.append((m, "undoc-duplicate-token" if dup else "member" if has else "no-xml-member"))
         v += list(extra)
-        v += [(_foreign(E), "wrong-enum"), ("abc", "wrong-type"), (None, "None" if none else "undoc-None")]
+        v += [(_foreign(E), "wrong-enum"), ("abc", "wrong-type"), (None, "None" if none else "None-not-documented")]
         return v
     return gen
 
@@ -185,7 +188,7 @@ def strings(none=False, empty="interior", kind="name"):
             v = [("http://example.com/a?b=c&d=e", "interior"), ("https://x.org/%20y#z", "interior"), ("mailto:a@b.c", "interior"), ("file:///C:/d/e.txt", "interior"), ("", "undoc-empty")]
         if kind == "numfmt":
             v = [("0.00", "interior"), ("#,##0", "interior"), ('0.0"x"', "interior"), ("General", "interior"), ("$#,##0.00", "interior"), ("[<100]0;0.0", "interior"), ("0%", "interior")]
-        v += [(7, "wrong-type"), ([1], "wrong-type"), (None, "None" if none else "undoc-None")]
+        v += [(7, "wrong-type"), ([1], "wrong-type"), (None, "None" if none else "None-not-documented")]
         classes = ["plain", "markup", "entity-like", "quotes", "astral", "long", "format-chars", "escape-lookalike", "lead-trail-space"]
         return _fill(v, rnd, min(n, 60), lambda r: (G.string(r, r.choice(classes), allow_breaks=False) or "z") if kind != "url" else "http://h/" + "".join(r.choice("abc/?&=%20") for _ in range(r.randint(1, 12))))
     return gen
@@ -193,7 +196,7 @@ def strings(none=False, empty="interior", kind="name"):
 
 def colours(rnd, n):
     v = [(RGBColor(r, g, b), "lo-bound" if (r, g, b) == (0, 0, 0) else "hi-bound" if (r, g, b) == (255, 255, 255) else "interior") for r in (0, 255) for g in (0, 255) for b in (0, 255)]
-    v += [(RGBColor(0x12, 0xAB, 0xEF), "interior"), ("FF0000", "wrong-type"), ((255, 0, 0), "wrong-type"), (0xFF0000, "wrong-type"), (None, "undoc-None")]
+    v += [(RGBColor(0x12, 0xAB, 0xEF), "interior"), ("FF0000", "wrong-type"), ((255, 0, 0), "wrong-type"), (0xFF0000, "wrong-type"), (None, "None-not-documented")]
     return _fill(v, rnd, n, lambda r: RGBColor(r.randrange(256), r.randrange(256), r.randrange(256)))
 
 
